@@ -173,6 +173,196 @@ def eval_side(mirobj, lir, params, arg_terms, overflow_checks):
     raise M.Unsupported("no Return")
 
 
+CF_SUPPORTED = SUPPORTED | {"Jump", "Switch"}
+
+
+def eval_path(mirobj, blocks, params, arg_terms, overflow_checks, decide, k_loop):
+    """One path of the evaluator over the LIR of `main` WITH its block structure. Jump / Switch are followed (the
+    examinee goes through the MIR of IrValue::switch_on; the branch table lookup is modelled: first entry whose index
+    equals the examinee, else default). Wherever the evaluator could stop loudly the path continues only on the
+    inputs on which it does not (force-decide); if there are none the path is cut."""
+    vars_ = {}
+    for (n, t), term in zip(params, arg_terms):
+        vars_[f"Explicit:{n}"] = irvalue_of(t, term)
+    bmap = {label: ins for label, ins in blocks}
+    label = blocks[0][0]
+    visits = {}
+
+    def varkey(d):
+        k = dict(d.fields)["kind"]
+        if isinstance(k, D):
+            inner = k.items[0]
+            if isinstance(inner, D):
+                inner = inner.items[0]
+            return f"{k.name}:{inner}"
+        return str(k)
+
+    def operand(v):
+        if v.name == "Place":
+            key = varkey(v.items[0])
+            if key not in vars_:
+                raise M.Unsupported(f"read of unknown variable {key}")
+            return vars_[key]
+        return lit_irvalue(v.items[0])
+
+    while True:
+        visits[label] = visits.get(label, 0) + 1
+        if visits[label] > 4 * k_loop + 4:
+            raise PathCut("evaluator loop bound")
+        jumped = False
+        for text in bmap[label]:
+            d = parse_debug(text)
+            if d.name not in CF_SUPPORTED:
+                raise M.Unsupported(f"LIR instruction {d.name}")
+            if d.name == "Jump":
+                label = f"{d.items[0].name}({d.items[0].items[0]})"
+                jumped = True
+                break
+            if d.name == "Return":
+                inner = d.items[0]
+                if not isinstance(inner, D) or inner.name != "Some":
+                    raise M.Unsupported("Return(None)")
+                return operand(inner.items[0])
+            if d.name == "Switch":
+                f = dict(d.fields)
+                ex = operand(f["examinee"])
+                it = M.Interp(mirobj, overflow_checks, {})
+                f2 = mirobj.fn(r"lir::value::<impl at src/lir/value\.rs:[\d: ]+>::switch_on$")
+                try:
+                    x = it.run(f2, "bb0", M._Env({f2["params"][0]: M.Ref(lambda ex=ex: ex)}), 1)
+                except M.Loud:
+                    raise PathCut("loud")
+                x64 = z3.ZeroExt(32, x.t)
+                target = None
+                for entry in f["branches"].items:
+                    idx, lab = entry.items
+                    if decide(z3.simplify(x64 == z3.BitVecVal(int(idx), 64)), f"switch {idx}"):
+                        target = lab
+                        break
+                if target is None:
+                    target = f["default"]
+                label = f"{target.name}({target.items[0]})"
+                jumped = True
+                break
+            fields, operand_values = [], []
+            for k, v in d.fields:
+                if isinstance(v, D) and v.name in ("Place", "Value"):
+                    val = operand(v)
+                    o = M.EnumV("Operand", v.name, [M.Opaque("inner")])
+                    operand_values.append((o, val))
+                    fields.append(o)
+                elif k == "cmp":
+                    fields.append(M.EnumV("IntCmp" if d.name == "IntCmp" else "FloatCmp", v, []))
+                elif k == "signed":
+                    fields.append(M.Scalar(z3.BoolVal(v == "true"), "bool"))
+                else:
+                    fields.append(M.Opaque(k))
+            st, val, lc = M.run_instruction(mirobj, d.name, fields, operand_values, overflow_checks)
+            for _, c in lc:
+                if not decide(z3.Not(c), "not-loud", force=True):
+                    raise PathCut("loud")
+            if st == "loud":
+                raise PathCut("loud")
+            vars_[varkey(dict(d.fields)["to"])] = val
+        if not jumped:
+            raise M.Unsupported("block falls through")
+
+
+def check_program_cf(mirobj, prog, dump, k_loop=3, timeout_ms=20000):
+    """control-flow version: path-wise on both sides (evaluator paths x CLIF paths)"""
+    out = {"status": "ok", "queries": 0, "finding": None, "reason": "", "profiles": {}}
+    entry = [f for f in prog.fns if f.name == prog.entry][0]
+    blocks = dump.get("lir_blocks", {}).get("pkg.main")
+    if blocks is None:
+        out["status"], out["reason"] = "unsupported", "no LIR captured"
+        return out
+    ref_args, cons = [], []
+    for (n, t) in entry.params:
+        v, c = lang.sym_value(t, f"arg_{n}")
+        ref_args.append(v)
+        cons += c
+    world = World(dump, tv.host_models())
+
+    def run_clif(decide):
+        path = Path(world, decide, k_loop, 2)
+        path.ledger = tv.Ledger()
+        path.lists = {"stores": [], "handles": {}, "next": 5000}
+        path.strings = {}
+        args = [z3.BitVecVal(0, 64)] + [tv.scalar_to_clif(t, v) for (n, t), v in zip(entry.params, ref_args)]
+        try:
+            return path, path.call("pkg.main", args)
+        except PathCut as e:
+            e.path = path
+            raise
+    try:
+        ex = Explorer(cons, 48, timeout_ms)
+        cpaths = ex.explore(run_clif)
+        out["queries"] += ex.queries
+    except clif.Unsupported as e:
+        out["status"], out["reason"] = "unsupported", "clif: " + str(e)
+        return out
+    for ovf in (True, False):
+        prof = "overflow-checks=" + ("on" if ovf else "off")
+        try:
+            ex2 = Explorer(cons, 48, timeout_ms)
+            epaths = ex2.explore(lambda decide: eval_path(mirobj, blocks, entry.params, ref_args, ovf, decide, k_loop))
+            out["queries"] += ex2.queries
+        except M.Unsupported as e:
+            out["status"], out["reason"] = "unsupported", "mir: " + str(e)
+            return out
+        except clif.Unsupported as e:
+            out["status"], out["reason"] = "unsupported", "explorer: " + str(e)
+            return out
+        compared = 0
+        for econds, eres in epaths:
+            if isinstance(eres, PathCut):
+                continue
+            evt = eres.fields[0]
+            tag_ty = RUST_TY[eres.variant]
+            for cconds, cres in cpaths:
+                if isinstance(cres, PathCut):
+                    if str(cres) != "trap":
+                        continue
+                    # the compiled code traps on inputs where the evaluator completes
+                    sv = z3.Solver()
+                    sv.set("timeout", timeout_ms)
+                    sv.add(cons + econds + cconds)
+                    out["queries"] += 1
+                    if sv.check() == z3.sat:
+                        m = sv.model()
+                        out["finding"] = {"profile": prof, "kind": "compiled code traps where the evaluator completes",
+                                          "args": [tv.bits_of(m, t, v) for (n, t), v in zip(entry.params, ref_args)]}
+                        return out
+                    continue
+                path, rv = cres
+                if tag_ty == "bool":
+                    diff = rv != z3.If(evt.t, z3.BitVecVal(1, 8), z3.BitVecVal(0, 8))
+                elif tag_ty in ("f32", "f64"):
+                    diff = z3.Not(rv == evt.t)
+                else:
+                    diff = rv != evt.t
+                diff = z3.simplify(diff)
+                compared += 1
+                if z3.is_false(diff):
+                    continue
+                sv = z3.Solver()
+                sv.set("timeout", timeout_ms)
+                sv.add(cons + econds + cconds + [diff])
+                out["queries"] += 1
+                r = sv.check()
+                if r == z3.sat:
+                    m = sv.model()
+                    out["finding"] = {"profile": prof, "args": [tv.bits_of(m, t, v) for (n, t), v in zip(entry.params, ref_args)],
+                                      "evaluator_value": str(m.eval(evt.t, model_completion=True)), "compiled_value": str(m.eval(rv, model_completion=True))}
+                    return out
+                if r == z3.unknown:
+                    out["status"], out["reason"] = "unsupported", "solver timeout"
+                    return out
+        done = len([1 for _, r in epaths if not isinstance(r, PathCut)])
+        out["profiles"][prof.replace("-", "_").replace("=", "_")] = f"{done} evaluator path(s) x {len(cpaths)} compiled path(s), {compared} pairs compared: agree wherever the evaluator does not stop loudly"
+    return out
+
+
 def check_program(mirobj, prog, dump, timeout_ms=20000):
     """returns dict: status ok|unsupported|loud_only, queries, finding (model) or None"""
     out = {"status": "ok", "queries": 0, "finding": None, "reason": "", "profiles": {}}
